@@ -589,9 +589,14 @@ package ggql
 //@   check panic {C03}
 
 //@ func (*typeList).get
-//@   props C03
+//@   props C03 C13
 //@   check panic {C03}
 //@   requires recv != nil
+//@   results t
+//@   ensures[lookup] recv.dict != nil ==> t == recv.dict[name]
+//@   ensures[empty] recv.dict == nil ==> t == nil
+//@   ensures[real] t != nil ==> ptrval(t) != 0
+//@   assigns nothing
 
 //@ func (*Union).Rank
 //@   props C03
